@@ -133,7 +133,11 @@ func run(env *simrt.Env, sci interface{}) {
 				c := ends[o%2]
 				switch (o / 2) % 6 {
 				case 0, 1:
-					_, _ = c.Write(make([]byte, 1+o%200))
+					n := 1 + o%200
+					if o%3 == 0 {
+						n = 2048 + o%3000 // large datagrams too (buffers of different provenance)
+					}
+					_, _ = c.Write(make([]byte, n))
 				case 2:
 					_ = c.SetReadDeadline(soon())
 					_, _ = c.Read(buf)
@@ -238,6 +242,10 @@ func run(env *simrt.Env, sci interface{}) {
 				switch (o / 2) % 9 {
 				case 0, 1, 2:
 					_, _ = c.WriteTo(make([]byte, 1+o%100), peer)
+					if o%4 == 0 {
+						// loopback: delivered by the writer's goroutine itself, without the router
+						_, _ = c.WriteTo(make([]byte, 1+o%100), &net.UDPAddr{IP: net.IPv4(127, 0, 0, 1), Port: 4000})
+					}
 				case 3:
 					_ = c.SetReadDeadline(soon())
 					_, _, _ = c.ReadFrom(buf)
@@ -319,6 +327,9 @@ func run(env *simrt.Env, sci interface{}) {
 					tbf.Set(vnet.TBFRate((1 + o%8) * vnet.MBit))
 				case 3:
 					tbf.Set(vnet.TBFMaxBurst(1000 + o))
+					if o%5 == 0 {
+						tbf.Set(vnet.TBFQueueSizeInBytes(20000 + o))
+					}
 				}
 				if o%7 == 0 {
 					env.Sleep(time.Duration(o%150) * time.Millisecond)
